@@ -336,7 +336,12 @@ impl<T: NumberLike> Iterator for &mut Decompressor<T> {
             state.flags = Some(flags.clone());
             Ok(Some(DecompressedItem::Flags(flags)))
           },
-          Err(e) if matches!(e.kind, ErrorKind::InsufficientData) => Ok(None),
+          Err(e) if matches!(e.kind, ErrorKind::InsufficientData) => {
+            // nothing was decoded, so don't let with_reader commit the
+            // partially advanced reader position
+            reader.seek_to(state.bit_idx);
+            Ok(None)
+          },
           Err(e) => Err(e),
         }
       } else if state.chunk_body_decompressor.is_none() {
@@ -361,7 +366,12 @@ impl<T: NumberLike> Iterator for &mut Decompressor<T> {
             state.terminated = true;
             Ok(Some(DecompressedItem::Footer))
           },
-          Err(e) if matches!(e.kind, ErrorKind::InsufficientData) => Ok(None),
+          Err(e) if matches!(e.kind, ErrorKind::InsufficientData) => {
+            // nothing was decoded, so don't let with_reader commit the
+            // partially advanced reader position
+            reader.seek_to(state.bit_idx);
+            Ok(None)
+          },
           Err(e) => Err(e),
         }
       } else {
